@@ -98,11 +98,7 @@ def judge(case, backends):
     om = float(case["omega"])
     K = len(starts)
     ref = refs.dft_stats(x0, y0, starts, L, w, om, order)
-    Sx = tol.seg_scale(x0, starts, L, w, order)
-    Sy = Sx if y0 is None else tol.seg_scale(y0, starts, L, w, order)
-    Sxy = (Sx ** 0.5 * Sy ** 0.5)
-    bx, by, bxy = tol.budget2(L, om, Sx, K), tol.budget2(L, om, Sy, K), tol.budget2(L, om, Sxy, K)
-    b4 = tol.budget4(L, om, Sx, Sy, K)
+    bx, by, bxy, b4 = tol.budgets(x0, y0, starts, L, w, om, order, ref)
     viol, got, worst = [], {}, 0.0
     seq = list(backends) if not case.get("reverse") else list(backends)[::-1]
     seq = seq + [seq[0] + "#again"]
@@ -152,6 +148,9 @@ def judge(case, backends):
         labels.append("L=1")
     if K == 1:
         labels.append("K=1")
+    sd = float(np.std(x0))
+    if order == 0 and L >= 8 and sd > 0 and abs(float(np.mean(x0))) > 1e6 * sd:
+        labels.append("order0:pedestal>1e6*signal")
     if case.get("chunk") and K > case["chunk"] and "numpy" in backends:
         labels.append("numpy-multi-block")
     if mode == "csd" and case["rec"]["rel"] == "delay" and case.get("aliased"):
@@ -222,10 +221,7 @@ def oracle_api(case):
         om = 2 * np.pi * f / fs
         w = wref(L, cfg["psll"])
         ref = refs.dft_stats(x, y, D, L, w, om, cfg["order"])
-        Sx = tol.seg_scale(x, D, L, w, cfg['order'])
-        Sy = Sx if y is None else tol.seg_scale(y, D, L, w, cfg['order'])
-        Sxy = (Sx ** 0.5 * Sy ** 0.5)
-        bx, by, bxy, b4 = tol.budget2(L, om, Sx, len(D)), tol.budget2(L, om, Sy, len(D)), tol.budget2(L, om, Sxy, len(D)), tol.budget4(L, om, Sx, Sy, len(D))
+        bx, by, bxy, b4 = tol.budgets(x, y, D, L, w, om, cfg["order"], ref)
         XY = complex(res.XY[j])
         for name, a, b, bud in (("XX", float(res.XX[j]), ref["XX"], bx), ("YY", float(res.YY[j]), ref["YY"], by),
                                 ("ReXY", XY.real, ref["XY"].real, bxy), ("ImXY", XY.imag, ref["XY"].imag, bxy),
